@@ -343,8 +343,13 @@ class ProgGen:
     def __init__(self, rng, guarded, maxdepth):
         self.rng, self.guarded, self.maxdepth = rng, guarded, maxdepth
         self.forbid = []
+        self.main_bound = None
 
     def writable(self, env, x):
+        # inside the main loop only names that exist before it are written: a name first bound inside `while True:`
+        # becomes a local of loop() that is reset on every pass (C01's business, not constant folding)
+        if self.main_bound is not None and x not in self.main_bound:
+            return False
         if not self.guarded:
             return True
         return not any(x in f for f in self.forbid)
@@ -510,8 +515,8 @@ class ProgGen:
         elif st[0] == "if":
             for x in st[1] + st[2]:
                 out |= ProgGen.written(x)
-        elif st[0] in ("while", "for"):
-            for x in (st[1] if st[0] == "while" else st[2]):
+        elif st[0] in ("while", "for", "main"):
+            for x in (st[2] if st[0] == "for" else st[1]):
                 out |= ProgGen.written(x)
         return out
 
@@ -527,12 +532,13 @@ class ProgGen:
                     if ws:
                         out.append(("len", self.rng.choice(ws)))
         if not out:
-            x = self.rng.choice(RT_N)
+            cands = [x for x in RT_N if self.main_bound is None or x in self.main_bound]
+            x = self.rng.choice(cands or RT_N)
             env.setdefault(x, ("M",))
             out.append(("rt", x, 17))
         return out, env
 
-    def program(self):
+    def program(self, main=False):
         env = {}
         pre = []
         rng = self.rng
@@ -562,7 +568,16 @@ class ProgGen:
                 else:
                     pre.append(("assign", x, repr(v))); env[x] = ("K", v)
         body, _ = self.block(env, 0, rng.randint(3, 8))
-        return pre + body
+        prog = pre + body
+        if main:
+            # the sketch's main loop `while True:` - parsed by parse() itself, in the top-level context
+            self.forbid.append({x for x, b in env.items() if b[0] == "K"})
+            self.main_bound = set(env)
+            mb, _ = self.block(self.child(env), 1, rng.randint(2, 5))
+            self.main_bound = None
+            self.forbid.pop()
+            prog.append(("main", mb))
+        return prog
 
 
 def wire_prog(p):
@@ -585,7 +600,7 @@ def wire_prog(p):
             out.append([3, 2, W.enc_src("[" + ", ".join(s[1]) + "]")])
         elif k == "if":
             out.append([5, wire_prog(s[1]), wire_prog(s[2])])
-        elif k == "while":
+        elif k in ("while", "main"):
             out.append([6, wire_prog(s[1])])
         elif k == "for":
             out.append([7, s[1], wire_prog(s[2])])
@@ -643,6 +658,9 @@ def render_prog(p, sfx, header=True):
                 lines.append(f"{pad}{n} = analog_read(14)")
                 lines.append(f"{pad}for {rn(s[1])} in range({n}):")
                 block(s[2], lvl + 1)
+            elif k == "main":
+                lines.append("while True:")
+                block(s[1], 1)
 
     block(p, 0)
     return (HEADER if header else "") + "\n".join(lines) + "\n"
@@ -667,9 +685,15 @@ def walk_oracle(p, rng, budget=60):
                 orc.append(k); ar.append(k)
                 for _ in range(k):
                     block(s[1] if s[0] == "while" else s[2])
+            elif s[0] == "main":
+                k = rng.choice([1, 2, 3])
+                orc.append(k); loops[0] = k
+                for _ in range(k):
+                    block(s[1])
 
+    loops = [0]
     block(p)
-    return orc, dr, ar, left[0] > 0
+    return orc, dr, ar, left[0] > 0, loops[0]
 
 
 def inputs_of(dr, ar):
@@ -746,13 +770,18 @@ WITNESSES = {
 }
 
 
-def run_real(progs, drs, ars, batch):
+def has_main(p):
+    return bool(p) and p[-1][0] == "main"
+
+
+def run_real(progs, drs, ars, batch, loops=None):
     """-> per program dict(status, py, fw): CPython observations (one run each) and firmware observations
     (accepted, Python-defined programs are batched into sketches, separated by marker lines)"""
     n = len(progs)
     scripts = [render_prog(p, "0") for p in progs]
     stat = C.run_impl("c03_impl.py", {"cases": [["prog", s] for s in scripts]})
-    py = C.run_impl("c03_impl.py", {"cases": [["pyobs", s, inputs_of(d, a)] for s, d, a in zip(scripts, drs, ars)]}, timeout=1200)
+    loops = loops or [0] * n
+    py = C.run_impl("c03_impl.py", {"cases": [["pyobs", s, inputs_of(d, a), l] for s, d, a, l in zip(scripts, drs, ars, loops)]}, timeout=1200)
     out = [{"static": st, "py": y, "fw": None, "status": None} for st, y in zip(stat, py)]
     runnable = []
     for i, o in enumerate(out):
@@ -762,7 +791,18 @@ def run_real(progs, drs, ars, batch):
             o["status"] = "py-undefined:" + o["py"]["exc"]
         else:
             runnable.append(i)
-    groups = [runnable[i:i + batch] for i in range(0, len(runnable), batch)]
+    # a sketch has one main loop: a program with `while True:` closes its group
+    groups, cur = [], []
+    plain = [i for i in runnable if not has_main(progs[i])]
+    mains = [i for i in runnable if has_main(progs[i])]
+    while plain or mains:
+        cur = plain[:batch - 1]
+        plain = plain[batch - 1:]
+        if mains:
+            cur.append(mains.pop(0))
+        elif plain:
+            cur.append(plain.pop(0))
+        groups.append(cur)
     srcs, inputs = [], []
     for g in groups:
         body, gd, ga = "", [], []
@@ -775,7 +815,7 @@ def run_real(progs, drs, ars, batch):
     jobs, jidx = [], []
     for gi, t in enumerate(tr):
         if t["ok"]:
-            jobs.append({"cpp": t["cpp"], "input": inputs[gi], "loops": 0})
+            jobs.append({"cpp": t["cpp"], "input": inputs[gi], "loops": loops[groups[gi][-1]]})
             jidx.append(gi)
     res = dict(zip(jidx, fw.run_sketches(jobs))) if jobs else {}
     for gi, g in enumerate(groups):
@@ -807,14 +847,14 @@ def layer_b(ctx, stats):
     progs, guarded = [], []
     for i in range(n):
         g = (i % 5) != 4                       # 80 % inside the guard (these feed the oracle), 20 % anything
-        progs.append(ProgGen(rng, g, 3 if thorough and i % 3 == 0 else 2).program())
+        progs.append(ProgGen(rng, g, 3 if thorough and i % 3 == 0 else 2).program(main=(i % 4 == 1)))
         guarded.append(g)
     def count(b, depth):
         for st in b:
             stats[f"stmt:{st[0]}@depth{depth}"] += 1
             if st[0] == "if":
                 count(st[1], depth + 1); count(st[2], depth + 1)
-            elif st[0] == "while":
+            elif st[0] in ("while", "main"):
                 count(st[1], depth + 1)
             elif st[0] == "for":
                 count(st[2], depth + 1)
@@ -823,8 +863,8 @@ def layer_b(ctx, stats):
     walks = [walk_oracle(p, rng) for p in progs]
     keep = [i for i, w in enumerate(walks) if w[3]]
     progs, guarded, walks = [progs[i] for i in keep], [guarded[i] for i in keep], [walks[i] for i in keep]
-    orcs, drs, ars = [w[0] for w in walks], [w[1] for w in walks], [w[2] for w in walks]
-    real, scripts, n_sk = run_real(progs, drs, ars, batch=10 if thorough else 8)
+    orcs, drs, ars, loops = [w[0] for w in walks], [w[1] for w in walks], [w[2] for w in walks], [w[4] for w in walks]
+    real, scripts, n_sk = run_real(progs, drs, ars, batch=10 if thorough else 8, loops=loops)
     model = ctx.model([[1, wire_prog(p), o] for p, o in zip(progs, orcs)]) if ctx.exe else [None] * len(progs)
     distinct = set()
     samples = []
@@ -871,7 +911,7 @@ def layer_b(ctx, stats):
                 distinct.add(body)
             if r["fw"] != r["py"]["obs"]:
                 ctx.fail("firmware observations (serial lines, flash pattern levels) differ from CPython's on a program inside the guard",
-                         {"script": s, "digital_read(4)": drs[idx], "analog_read(14)": ars[idx]},
+                         {"script": s, "digital_read(4)": drs[idx], "analog_read(14)": ars[idx], "main_loop_passes": loops[idx]},
                          r["py"]["obs"], r["fw"], key="stale-fold")
         elif fresh and r["status"] == "nocompile":
             stats["oracle:nocompile"] += 1
@@ -902,7 +942,7 @@ def run(ctx: C.Ctx):
         "distinct_nontrivial": d_a + d_b,
         "programs": n_b,
         "sketches_compiled": n_sk,
-        "rule": "A: boundary expressions (every node kind _eval_const looks at, each operator with int/float/bool/str operands, error sources, hostile forms) x 3-5 environments (known int/float/bool/str/list/tuple, a marker, an unbound name), then seeded random expressions (harness/pyast_wire.gen_expr, depth 1-4) - each through the extracted model and the real _eval_const/_expr_has_name/_to_c_expr, a sample also through parse() at the blink/backlight/glyph/sleep call sites with the environment set up by assignments; non-trivial (A) = distinct (expression, environment) on which the real evaluator returned a value inside the guard and the CPython comparison ran. B: seeded programs (assign / run-time read / append / remove / len(name) / flash_pattern(name) / lcd.glyph(0, [rows]) under if, while, for; 80 % generated inside the guard) with one seeded execution path each (branches taken or not, loops 0-3 times): real parse() IR vs model residual, CPython run vs model reference semantics, firmware run (batched sketches, g++, mock core) vs model firmware outputs; non-trivial (B) = distinct program inside the guard that ran on both sides with >= 2 observations.",
+        "rule": "A: boundary expressions (every node kind _eval_const looks at, each operator with int/float/bool/str operands, error sources, hostile forms) x 3-5 environments (known int/float/bool/str/list/tuple, a marker, an unbound name), then seeded random expressions (harness/pyast_wire.gen_expr, depth 1-4) - each through the extracted model and the real _eval_const/_expr_has_name/_to_c_expr, a sample also through parse() at the blink/backlight/glyph/sleep call sites with the environment set up by assignments; non-trivial (A) = distinct (expression, environment) on which the real evaluator returned a value inside the guard and the CPython comparison ran. B: seeded programs (assign / run-time read / append / remove / len(name) / flash_pattern(name) / lcd.glyph(0, [rows]) under if, while, for and - every fourth program - the sketch's main loop `while True:` run 1-3 passes; 80 % generated inside the guard) with one seeded execution path each (branches taken or not, loops 0-3 times): real parse() IR vs model residual, CPython run vs model reference semantics, firmware run (batched sketches, g++, mock core) vs model firmware outputs; non-trivial (B) = distinct program inside the guard that ran on both sides with >= 2 observations.",
         "samples": [{"expr": x} for x in s_a] + [{"program": x} for x in s_b],
         "distribution": dict(sorted(stats.items())),
         "guard": "A: in_guard (no one-argument max/min; unary plus only on int/float operands - decided by CPython in the oracle), no variable named like a builtin of _SAFE_NAME_REFERENCES. B: is_fresh (ConstEnv.tblock's ghost flag): no assignment / append / remove to a name with a known transpile-time value inside an if / while / for body, remove only of a known value that is present, append only of a known value - outside: findings F-C03-*",
